@@ -53,6 +53,26 @@ class ToolError(Exception):
     pass
 
 
+def worker_threads(gb_per_thread=0.7, cap=14):
+    """Number of harness worker threads: bounded by the CPUs and by the memory that is actually available
+    (the checks may run on a machine with much less RAM than the one they were built on)."""
+    try:
+        avail_kb = int(re.search(r"MemAvailable:\s+(\d+)", open("/proc/meminfo").read()).group(1))
+    except Exception:
+        avail_kb = 8_000_000
+    by_mem = int((avail_kb / 1e6) * 0.6 / gb_per_thread)
+    return max(2, min(cap, os.cpu_count() or 4, by_mem))
+
+
+def tlc_heap(default_gb=8):
+    """-Xmx for TLC: at most a third of the available memory."""
+    try:
+        avail_kb = int(re.search(r"MemAvailable:\s+(\d+)", open("/proc/meminfo").read()).group(1))
+    except Exception:
+        avail_kb = 8_000_000
+    return f"{max(1, min(default_gb, int(avail_kb / 1e6 / 3)))}g"
+
+
 def seed():
     try:
         return int(os.environ.get("VERIF_SEED", "1"))
